@@ -341,6 +341,8 @@ class VServer(object):
         self.client_side_disconnect = {}
         self.server_side_disconnect = {}
         self.connected = True
+        self.zombie = False   # listed by the broker although every call fails with DeadReferenceError
+        self.hidden = False
         self.start()
         self.iserver = VIServer(self)
 
@@ -427,7 +429,7 @@ class VBroker(object):
         return sorted(servers, key=_permuted)
 
     def get_connected_servers(self):
-        return [vs.iserver for vs in self.grid.servers if vs.connected and not vs.hidden]
+        return [vs.iserver for vs in self.grid.servers if (vs.connected or vs.zombie) and not vs.hidden]
 
     def get_nickname_for_serverid(self, serverid):
         return None
@@ -553,7 +555,6 @@ class VGrid(object):
 
     def add_server(self, readonly=False, reserved_space=0):
         vs = VServer(self, len(self.servers), readonly=readonly, reserved_space=reserved_space)
-        vs.hidden = False
         self.servers.append(vs)
         return vs
 
